@@ -59,6 +59,10 @@ esac
 case " $PROPS " in *" C17 "*)
   /venv/bin/python "$ROOT/harness/translate/py2gallina_c17.py" 2> >(grep -v conda >&2) || echo "setup: translator rejected the source (coq/Gen/DensityReuseGen.v is a non-compiling stub)" >&2 ;;
 esac
+# C18 owns coq/Gen/DataSetScalingGen.v (scaling bookkeeping of class DataSet in sparseSpACE/DEMachineLearning.py; theorems in Props/C18gen.v)
+case " $PROPS " in *" C18 "*|*" C18gen "*)
+  /venv/bin/python "$ROOT/harness/translate/py2gallina_c18.py" 2> >(grep -v conda >&2) || echo "setup: translator rejected the source (coq/Gen/DataSetScalingGen.v is a non-compiling stub)" >&2 ;;
+esac
 cd "$ROOT/coq"
 find . -name '*.v' | sed 's|^\./||' | sort > .files.new
 if ! cmp -s .files.new .files || [ ! -f Makefile.coq ]; then
